@@ -284,3 +284,80 @@ Proof.
     rewrite IH by (intros x Hx; apply H; right; exact Hx). reflexivity. }
   apply G. intros [i s] His. apply Hact. cbn. unfold enum in His. apply in_combine_r in His. exact His.
 Qed.
+
+(* ------------------------------------------------------------------ undefined coordinates / external drifts *)
+Lemma forallb_is_def l : forallb is_def l = true <-> (forall o : option Q, In o l -> o <> None).
+Proof.
+  rewrite forallb_forall. split; intros H o Ho.
+  - specialize (H o Ho). destruct o; [discriminate|discriminate H].
+  - specialize (H o Ho). destruct o; [reflexivity|contradiction].
+Qed.
+
+Lemma admissible_x_b_spec p t x : admissible_x_b p t x = true <-> admissible_x p t x.
+Proof.
+  unfold admissible_x_b, admissible_x, coords_defined, fext_defined.
+  rewrite !andb_true_iff, !forallb_is_def, admissible_b_spec. tauto.
+Qed.
+
+Lemma cand_of_x_spec oracle p t ix :
+  cand_of_x oracle p t ix =
+  if admissible_x_b p t (snd ix) then Some (mk_cand oracle p t (fst ix, x_total (snd ix))) else None.
+Proof.
+  unfold cand_of_x, admissible_x_b, discard_undefined_x. rewrite cand_of_spec. cbn [snd fst].
+  unfold admissible_b. cbn [x_total s_active].
+  destruct (x_active (snd ix)); cbn [negb andb]; [|repeat rewrite andb_false_r; destruct (forallb is_def (x_coords (snd ix)) && forallb is_def (x_fext (snd ix))); reflexivity].
+  destruct (forallb is_def (x_coords (snd ix))); cbn [negb orb andb]; [|reflexivity].
+  destruct (forallb is_def (x_fext (snd ix))); cbn [negb orb andb]; [|reflexivity].
+  destruct (discard_undefined (x_total (snd ix))); cbn [negb andb]; reflexivity.
+Qed.
+
+Lemma cand_loop_x_filter oracle p t l :
+  cand_loop_x oracle p t l =
+  map (fun ix => mk_cand oracle p t (fst ix, x_total (snd ix))) (filter (fun ix => admissible_x_b p t (snd ix)) l).
+Proof.
+  induction l as [|ix r IH]; [reflexivity|].
+  cbn [cand_loop_x filter]. rewrite cand_of_x_spec.
+  destruct (admissible_x_b p t (snd ix)); cbn [map]; rewrite IH; reflexivity.
+Qed.
+
+(* a sample with an undefined coordinate or drift behaves exactly like a masked sample (standard path) *)
+Lemma cand_of_x_embed oracle p t i x : cand_of_x oracle p t (i, x) = cand_of oracle p t (i, x_embed x).
+Proof.
+  rewrite cand_of_x_spec, cand_of_spec. cbn [snd fst]. unfold admissible_x_b, admissible_b, mk_cand.
+  cbn [x_embed x_total s_active snd fst].
+  change (discard_undefined (x_embed x)) with (discard_undefined (x_total x)).
+  change (xvalid p t (x_embed x)) with (xvalid p t (x_total x)).
+  change (checks_ok p t (x_embed x)) with (checks_ok p t (x_total x)).
+  change (dist2 p t (x_embed x)) with (dist2 p t (x_total x)).
+  change (tincr p t (x_embed x)) with (tincr p t (x_total x)).
+  destruct (x_active x), (forallb is_def (x_coords x)), (forallb is_def (x_fext x)); cbn [andb]; reflexivity.
+Qed.
+
+Lemma enum_map {A B} (f : A -> B) (l : list A) : enum (map f l) = map (fun ix => (fst ix, f (snd ix))) (enum l).
+Proof.
+  unfold enum. rewrite map_length. generalize 0%nat as k. induction l as [|x r IH]; intro k; [reflexivity|].
+  cbn [length seq combine map fst snd]. f_equal. apply IH.
+Qed.
+
+Lemma moving_x_embed oracle p t xs : moving_x oracle p t xs = moving oracle p t (map x_embed xs).
+Proof.
+  unfold moving_x, moving. rewrite map_length.
+  destruct (Z.of_nat (length xs) <? p_nmini p)%Z; [reflexivity|]. f_equal.
+  rewrite enum_map. induction (enum xs) as [|[i x] r IH]; [reflexivity|].
+  cbn [cand_loop_x cand_loop map fst snd]. rewrite cand_of_x_embed, IH. reflexivity.
+Qed.
+
+Lemma n_admissible_x p t xs :
+  n_admissible p t (map x_embed xs) = length (filter (fun ix => admissible_x_b p t (snd ix)) (enum xs)).
+Proof.
+  unfold n_admissible. rewrite enum_map.
+  induction (enum xs) as [|[i x] r IH]; [reflexivity|]. cbn [map filter fst snd].
+  assert (E : admissible_b p t (x_embed x) = admissible_x_b p t x).
+  { unfold admissible_x_b, admissible_b. cbn [x_embed x_total s_active].
+    change (discard_undefined (x_embed x)) with (discard_undefined (x_total x)).
+    change (xvalid p t (x_embed x)) with (xvalid p t (x_total x)).
+    change (checks_ok p t (x_embed x)) with (checks_ok p t (x_total x)).
+    change (dist2 p t (x_embed x)) with (dist2 p t (x_total x)).
+    destruct (x_active x), (forallb is_def (x_coords x)), (forallb is_def (x_fext x)); cbn [andb]; reflexivity. }
+  rewrite E. destruct (admissible_x_b p t x); cbn [length]; rewrite IH; reflexivity.
+Qed.
